@@ -81,12 +81,13 @@ type Frame struct {
 	curBlock int
 	frameAllowed func(comp string, r string, h Heap) string // for implicit frame invariants; nil if none
 	frameTargets []modTarget
+	atCallSeen map[*AtCall]bool
 }
 
 func (u *Unit) newFrame(fn *ssa.Function, ct *Contract, parent *Frame) *Frame {
 	fr := &Frame{u: u, fn: fn, ct: ct, vals: map[ssa.Value]Val{}, lvs: map[ssa.Value]*LV{}, tuples: map[ssa.Value][]Val{},
 		reach: map[int]string{}, heapOut: map[int]Heap{}, edgeCond: map[[2]int]string{}, loops: map[int]*loopInfo{},
-		names: map[string]Val{}, parent: parent}
+		names: map[string]Val{}, parent: parent, atCallSeen: map[*AtCall]bool{}}
 	if parent != nil {
 		fr.depth = parent.depth + 1
 	}
